@@ -10,8 +10,8 @@
                        process        = present iff some file defines it
                        pointer struct = present iff some file has it, its fields by the same rules
                        environment    = for every key the last entry of the chain with that key is present byte for
-                                        byte, and nothing is present that no file contains (order is not part of
-                                        the property)
+                                        byte, and an entry is present only if some file contains it and no LATER file
+                                        sets its key (order is not part of the property)
                      The loader's own post-processing ([post], not the subject of C15) is applied on top.
    holds_C15_nz    : the same with "mentions" read as "mentions with a non-zero value" (finding F28: mergo cannot
                      override with a zero value).  A case that fails holds_C15 but passes holds_C15_nz is exactly
@@ -129,11 +129,18 @@ Definition spec_project (strict : bool) (gs : list project) : project :=
 
 (* environment clauses *)
 Definition mem_bytes (e : bytes) (l : list bytes) : bool := existsb (bytes_eqb e) l.
+Definition has_key (k : bytes) (l : list bytes) : bool := existsb (fun y => bytes_eqb (key_of y) k) l.
+(* x may be in the result only if some file contains it and no LATER file sets its key *)
+Fixpoint survivor (x : bytes) (inputs : list env) : bool :=
+  match inputs with
+  | [] => false
+  | e :: rest => (mem_bytes x (olist e) && negb (has_key (key_of x) (flat_map olist rest))) || survivor x rest
+  end.
 Definition env_spec_ok (inputs : list env) (obs : env) : bool :=
   let all := flat_map olist inputs in
   forallb (fun e => match last_with_key (key_of e) all with
                     | Some x => mem_bytes x (olist obs) | None => false end) all &&
-  forallb (fun e => mem_bytes e all) (olist obs).
+  forallb (fun x => survivor x inputs) (olist obs).
 
 (* the chain in the order in which the text reads it: ancestors (root first, working directories resolved
    against their own directory), then the file itself *)
